@@ -32,7 +32,7 @@ type zvC11Uni struct {
 }
 
 type zvC11Case struct {
-	U    zvC11Uni   `json:"universe"`
+	U    zvC11Uni  `json:"universe"`
 	Hist []zvC11Op `json:"history"`
 }
 
@@ -137,10 +137,10 @@ func zvC11Step(r *vh.Run, u zvC11Uni, hist []zvC11Op) (string, []zvC11Op, bool) 
 	paths := zvC11Paths(u)
 
 	// model
-	var present [3][3]bool             // [pfx][class] added and not removed by the history
-	var annID [3][3]uint32             // identifier the client saw in the AddPath of (pfx,class)
+	var present [3][3]bool                     // [pfx][class] added and not removed by the history
+	var annID [3][3]uint32                     // identifier the client saw in the AddPath of (pfx,class)
 	view := [3]map[uint32]*zvoView{{}, {}, {}} // what a peer holds: per prefix, identifier -> attributes
-	var classView [3]*zvoView          // attributes (identifier blanked) the session advertises for a class
+	var classView [3]*zvoView                  // attributes (identifier blanked) the session advertises for a class
 
 	clOf := func(v *zvoView) int {
 		for k, cv := range classView {
